@@ -164,6 +164,12 @@ theorem if_range_date (r : CondReq) (v : Str) (d s : Int) (m : Nat)
     | cons _ _ => rfl
   simp [isResourceModified, hr, parseIfRange, hv, hve, hd, dateUnmodified]
 
+def exampleIfRangeDate : CondReq :=
+  { range := some "bytes=0-1".toList, ifRange := some "x".toList, ifRangeDate := some 100 }
+
+example : isResourceModified exampleIfRangeDate none (some (100, 999999)) false = false ∧
+    isResourceModified exampleIfRangeDate none (some (101, 0)) false = true := by decide
+
 /-- An `If-Range` header without a `Range` header is ignored. -/
 theorem if_range_without_range_ignored (r : CondReq) (etag : Option Str) (lm : Option (Int × Nat))
     (hr : r.range = none) :
@@ -228,6 +234,9 @@ theorem status_304_sound (method : Str) (q : CondReq) (r : RespIn) (cl : Option 
         · simpa using hc
       · simp at h
   · simp at h
+
+example : makeConditionalStatus "HEAD".toList { inm := some "W/\"a\"".toList }
+    { etag := some "\"a\"".toList } none false = some (304, .notRange) := by decide
 
 /-- the full-strength reading of "a 304 always when the validators match, for GET/HEAD" -/
 def Status304Complete : Prop :=
@@ -759,6 +768,9 @@ theorem ignored_range_full_body (method : Str) (q : CondReq) (r : RespIn) (cl : 
       have : c = [] := by simpa using hc
       simp [this, ih]
     | false => simp [ih]
+
+example : makeConditionalStatus "POST".toList { range := some "bytes=0-1".toList } {} (some 6) true
+    = some (200, .notRange) := by decide
 
 /-- a failed `If-Range` (the validator does not match: the resource counts as modified) switches
 range handling off -/
